@@ -235,6 +235,9 @@ func (w *World) fakeEvents() []envEvent {
 			continue
 		}
 		if f.dying {
+			if f.dieAt > 0 && w.now() < f.dieAt {
+				continue
+			}
 			evs = append(evs, envEvent{label: "die(" + f.Key + ")", fire: func() {
 				w.mu.Lock()
 				f.exitLocked(f.dieCode, true)
